@@ -402,7 +402,7 @@ def graft_effect_guards(ev, t):
     if t.op == "if":
         return T("if", t.node, t.mod, cond=t.cond, then=graft_effect_guards(ev, t.then), other=graft_effect_guards(ev, t.other))
     if t.op != "seq":
-        return t
+        return _hoist_value_guards(ev, t)
     value = graft_effect_guards(ev, t.value)
     keep = []
     for e in reversed(t.effects):
@@ -419,6 +419,32 @@ def graft_effect_guards(ev, t):
     if keep:
         value = T("seq", t.node, t.mod, effects=list(reversed(keep)), value=value)
     return value
+
+
+def _hoist_value_guards(ev, t, budget=6):
+    """f(check_and_get(x)): a VALUE-position call to a repo helper whose body raises under a condition and otherwise
+    returns a value is the same control flow as the guard written inline before the expression -
+    if(cond ? raise : f(value)) - because a raising argument aborts the whole enclosing expression"""
+    if budget <= 0 or not hasattr(ev, "_raising_helper"):
+        return t
+    for c in _walk_terms(t):
+        if c.op != "call" or c.fn.op != "ref":
+            continue
+        res = ev._raising_helper(c.node, c)
+        if res is None:
+            continue
+
+        def leaves(r):
+            if r.op == "if":
+                return T("if", r.node, r.mod, cond=r.cond, then=leaves(r.then), other=leaves(r.other))
+            if r.op == "seq":
+                return T("seq", r.node, r.mod, effects=r.effects, value=leaves(r.value))
+            if r.op == "raise":
+                return r
+            return _hoist_value_guards(ev, tmap(t, lambda x: r if x is c else x), budget - 1)
+
+        return leaves(res)
+    return t
 
 
 def unseq(t):
